@@ -9,6 +9,9 @@ Inductive obs :=
     (* each aggregation job in the scheduler's table with the duty handed to Aggregate when its
        function runs, and what the real Aggregate then asked for and submitted:
        (slot requested, data root requested, aggregator index, selection proof) *)
+| ObsHead (infos : list (N * list sub)) (len : N)
+    (* after a head event: the stored information of every epoch a subscribe of the history named
+       (sorted by epoch, each sorted as in ObsSub), and len(subscriptionInfos) *)
 | ObsPanic.
 
 Record case := {
@@ -50,6 +53,11 @@ Definition out_agrees (m : out) (o : obs) : bool :=
   | OutAtt jobs, ObsAtt jobs' =>
       list_eqb job_eqb (sort_jobs jobs) (map fst jobs') &&
       forallb (fun jo => option_eqb quad_eqb (snd jo) (Some (aggregate_out (fst jo)))) jobs'
+  | OutHead infos, ObsHead infos' len =>
+      let sorted := sort_by fst infos in
+      list_eqb N.eqb (map fst sorted) (map fst infos') &&
+      list_eqb (list_eqb sub_eqb) (map (fun kv => sort_subs (snd kv)) sorted) (map snd infos') &&
+      (N.of_nat (length infos) =? len)
   | _, _ => false
   end.
 
@@ -124,9 +132,13 @@ Definition known_set (ep : N) (v : list N * list duty) (k : known) : known :=
    has that duty, is selected by the specification's rule, with that validator's own slot
    signature and the attestation's data root; and every attested committee with a selected
    validator gets a job. *)
-Definition P_att (pr : params) (kn : known) (prev : list job) (dslot cur : N) (attest_fail : bool)
+Definition P_att (pr : params) (kn_all kn : known) (prev : list job) (dslot cur : N) (attest_fail : bool)
            (no_acct : list N) (atts : list att) (jobs : list (job * option (N * N * N * N))) : bool :=
+  (* [kn_all]: the latest subscribe of every epoch, whatever head events followed -- what may
+     justify a new job; [kn]: the same without the epochs that head events were entitled to drop
+     -- what must lead to a job *)
   let js := map fst jobs in
+  let sub_may := if attest_fail then None else known_get (dslot / spe pr) kn_all in
   let sub := if attest_fail then None else known_get (dslot / spe pr) kn in
   forallb (fun j => memb job_eqb j js) prev &&
   nodupb pair_eqb (map jkey js) &&
@@ -134,7 +146,7 @@ Definition P_att (pr : params) (kn : known) (prev : list job) (dslot cur : N) (a
                        (Some (j_dslot (fst jo), j_root (fst jo), j_val (fst jo), j_sig (fst jo)))) jobs &&
   forallb (fun j =>
     memb pair_eqb (jkey j) (map jkey prev) ||
-    match sub with
+    match sub_may with
     | None => false
     | Some (sign_fail, ds) =>
         existsb (fun a => pair_eqb (a_slot a, a_comm a) (jkey j) && (a_root a =? j_root j)) atts &&
@@ -158,22 +170,39 @@ Definition P_att (pr : params) (kn : known) (prev : list job) (dslot cur : N) (a
               (memb pair_eqb (a_slot a, a_comm a) (map jkey js))) atts
   end.
 
-Fixpoint spec_ok (pr : params) (kn : known) (prev : list job) (ops : list op) (os : list obs) : bool :=
+(* HandleHeadEvent: what the aggregation step will need survives.  The specification's reading of
+   "old": the information of an epoch may go only once the head is two or more epochs later (plain
+   arithmetic on naturals: nothing is old during epochs 0 and 1); a head that is not of the current
+   slot changes nothing.  [P_head]: every epoch with information that is not old in this sense is
+   still held afterwards. *)
+Definition old_epoch (ep hepoch : N) : bool := ep + 1 <? hepoch.
+Definition known_prune (hepoch : N) (kn : known) : known :=
+  filter (fun x => negb (old_epoch (fst x) hepoch)) kn.
+Definition head_effective (hslot cur : N) : bool := hslot =? cur.
+Definition P_head (pr : params) (kn : known) (hslot cur : N) (infos : list (N * list sub)) : bool :=
+  forallb (fun x => implb (negb (head_effective hslot cur && old_epoch (fst x) (hslot / spe pr)))
+                          (memb N.eqb (fst x) (map fst infos))) kn.
+
+Fixpoint spec_ok (pr : params) (kn_all kn : known) (prev : list job) (ops : list op) (os : list obs) : bool :=
   match ops, os with
   | [], [] => true
   | OSub ep cur no_accounts duties_fail sign_fail ds :: ops', ObsSub calls _ :: os' =>
       P_sub (agg_target pr) cur no_accounts duties_fail sign_fail ds calls &&
-      let kn' := if no_accounts then known_set ep ([], []) kn
-                 else if duties_fail then kn
-                 else known_set ep (sign_fail, ds) kn in
-      spec_ok pr kn' prev ops' os'
+      let upd k := if no_accounts then known_set ep ([], []) k
+                   else if duties_fail then k
+                   else known_set ep (sign_fail, ds) k in
+      spec_ok pr (upd kn_all) (upd kn) prev ops' os'
   | OAtt dslot cur attest_fail no_acct atts :: ops', ObsAtt jobs :: os' =>
-      P_att pr kn prev dslot cur attest_fail no_acct atts jobs &&
-      spec_ok pr kn (map fst jobs) ops' os'
+      P_att pr kn_all kn prev dslot cur attest_fail no_acct atts jobs &&
+      spec_ok pr kn_all kn (map fst jobs) ops' os'
+  | OHead hslot cur :: ops', ObsHead infos _ :: os' =>
+      P_head pr kn hslot cur infos &&
+      let kn' := if head_effective hslot cur then known_prune (hslot / spe pr) kn else kn in
+      spec_ok pr kn_all kn' prev ops' os'
   | _, _ => false
   end.
 
-Definition P_b (c : case) : bool := spec_ok (c_pr c) [] [] (c_ops c) (c_obs c).
+Definition P_b (c : case) : bool := spec_ok (c_pr c) [] [] [] (c_ops c) (c_obs c).
 
 Definition mismatches (cs : list case) : list N := failing_ids c_id agree cs.
 Definition violations (cs : list case) : list N := failing_ids c_id P_b cs.
